@@ -161,7 +161,8 @@ static void start_topo_chunk(WriteBuffer &_buffer,
             if (val > max_valence) { max_valence = val;}
             valence_sum += val;
         }
-        if (min_valence == max_valence && min_valence <= std::numeric_limits<uint8_t>::max()) {
+        // a header valence of 0 means "variable valence", so a uniform valence of 0 cannot be stored as fixed
+        if (min_valence == max_valence && min_valence != 0 && min_valence <= std::numeric_limits<uint8_t>::max()) {
             header.valence = min_valence;
             header.valence_encoding = IntEncoding::None;
         } else {
